@@ -313,9 +313,9 @@ def find_lost_attribute(cheetah, row, how):
     defining feature and show that `how(element)` (clone or save/load) loses it or raises.  Returns a replay dict or None."""
     cls = getattr(cheetah, row["cname"])
     for variant in range(3):
-        for p in missing(row) or [None]:
+        for p, only in [(p, o) for p in (missing(row) or [None]) for o in (([p], None) if p else (None,))]:
             try:
-                kw, nd = probe_kwargs(cheetah, cls, variant, only=None if p is None else [p])
+                kw, nd = probe_kwargs(cheetah, cls, variant, only=only)
                 e = cls(**kw)
             except Exception:
                 continue
